@@ -114,6 +114,8 @@ func (reader *Reader) Slurp(size int) error {
 		remaining -= n
 	}
 
+	// NOTE: nothing of the skipped bytes is kept inside the message buffer.
+	reader.reset(0)
 	return nil
 }
 
